@@ -9,7 +9,7 @@ from .core import TLSFailure
 TOKEN_RE = re.compile(rb"^[!#$%&'*+\-.^_`|~0-9A-Za-z]+$")
 # field-value: visible ASCII, SP, HTAB, obs-text; no CR/LF/NUL
 FIELD_VALUE_RE = re.compile(rb"^[\x21-\x7e\x80-\xff]([\x20\x09\x21-\x7e\x80-\xff]*[\x21-\x7e\x80-\xff])?$|^$")
-TARGET_RE = re.compile(rb"^[\x21-\x7e\x80-\xff]+$")
+TARGET_RE = re.compile(rb"^[\x21-\x7e]+$")
 
 
 class Peer:
@@ -329,6 +329,8 @@ def echo_body(token: bytes) -> bytes:
 def make_echo_responder(framing="cl"):
     def responder(req, conn):
         tok = token_of(req) or b"?"
+        if req.method == b"HEAD":
+            return {"data": b"HTTP/1.1 200 OK\r\nX-Echo: " + tok + b"\r\nContent-Length: %d\r\n\r\n" % len(echo_body(tok))}
         return echo_response(tok, framing)
     return responder
 
